@@ -426,6 +426,13 @@ fn part_s(cfg: Cfg, depth: usize, out: &mut SeqOut, seq_seen: &mut HashSet<Strin
             .flat_map_iter(|hist| {
                 let mut v: Vec<Row> = vec![];
                 for op in &alpha {
+                    let slot = match op {
+                        Op::Put(w, _) | Op::Del(w, _) | Op::Commit(w) | Op::Rollback(w) => Some(*w),
+                        _ => None,
+                    };
+                    if slot.is_some_and(|w| !hist.contains(&Op::Begin(w))) {
+                        continue;
+                    }
                     let Ok(mut s) = replay(cfg, hist) else { continue };
                     let blocks_before = s.ref_blocks.len();
                     let mut h2 = hist.clone();
@@ -456,7 +463,12 @@ fn part_s(cfg: Cfg, depth: usize, out: &mut SeqOut, seq_seen: &mut HashSet<Strin
             match r {
                 Err(v) => {
                     out.violating += 1;
-                    let sig = format!("c16:seq:{}:{}", op_kind(hist.last().unwrap()), v.sig);
+                    let sig = match hist.last().unwrap() {
+                        // rollback must leave chain and store untouched; whatever changed, the cause is the restore
+                        Op::Rollback(_) => format!("c16:seq:rollback-restores-begin-snapshot:{}", v.sig),
+                        Op::AppendUnsigned if v.sig == "verify-fails" => "c16:seq:append-accepts-unsigned-block-1:verify-fails".to_string(),
+                        op => format!("c16:seq:{}:{}", op_kind(op), v.sig),
+                    };
                     if out.violations.iter().filter(|x| x.0 == sig).count() < 3 {
                         out.violations.push((sig, format!("cfg {cfg:?}, after {hist:?}: {}", v.msg), json!({"part":"S","cfg":cfg,"ops":hist})));
                     }
@@ -515,23 +527,31 @@ struct ReplicaOut {
     violating: u64,
     violations: Vec<(String, String, serde_json::Value)>,
 }
-/// scenario 1: both replicas created at T (identical genesis), replica B applies one hour later.
-/// scenario 2: replica B is created (and applies) one hour later.
+/// Replica A: proposer's node id, created and run at the proposer's clock value T.
+/// scenario 1: B = same node id, created at T (identical genesis), applies the blocks one hour later.
+/// scenario 2: B = same node id, created (and run) one hour later.
+/// scenario 3: B = another node id, created and run at T.
 fn replica_case(bs: &BlockSeq, scenario: u8) -> (u64, u64, u64, Option<Viol>) {
     thread_clock_reset();
     let a = mk_replica(&bs.proposer, &bs.pubkey);
     if scenario == 2 {
         thread_clock_advance_ms(HOUR_MS);
     }
-    let b = mk_replica(&bs.proposer, &bs.pubkey);
+    let b = mk_replica(if scenario == 3 { "replica-b" } else { &bs.proposer }, &bs.pubkey);
     thread_clock_reset();
-    // A at the proposer's time
     let mut ra = vec![];
     for blk in &bs.blocks {
         let r = a.sm.apply_block(blk).map_err(|e| e.to_string());
         ra.push((r, compute_state_root(&a.store).expect("root"), user_store(&a.store)));
     }
-    thread_clock_advance_ms(HOUR_MS);
+    let what_b = match scenario {
+        1 => "replica B (same genesis, clock T+1h)",
+        2 => "replica B (created at T+1h)",
+        _ => "replica B (node id replica-b, same clock)",
+    };
+    if scenario != 3 {
+        thread_clock_advance_ms(HOUR_MS);
+    }
     let mut out = None;
     let (mut applied, mut acc_a, mut cmp) = (0, 0, 0);
     for (i, blk) in bs.blocks.iter().enumerate() {
@@ -552,10 +572,10 @@ fn replica_case(bs: &BlockSeq, scenario: u8) -> (u64, u64, u64, Option<Viol>) {
         if let Err(e) = r_a {
             out = Some(Viol { sig: "proposer-root-not-reproducible".into(), msg: format!("a replica with the proposer's identity, created and run at the proposer's own clock value, rejects block {}: {e}", i + 1) });
         } else if r_a.is_ok() != r.is_ok() {
-            out = Some(Viol { sig: "accept-depends-on-wall-clock".into(), msg: format!("block {} is accepted by replica A (clock T) and rejected by replica B (clock T+1h): {}", i + 1, r.clone().err().unwrap_or_default()) });
+            out = Some(Viol { sig: "block-accepted-by-one-replica-only".into(), msg: format!("block {} is accepted by replica A and rejected by {what_b}: {}", i + 1, r.clone().err().unwrap_or_default()) });
         } else if *root_a != root_b {
             let ub = user_store(&b.store);
-            out = Some(Viol { sig: "state-root-depends-on-wall-clock".into(), msg: format!("after block {} both replicas accepted the same blocks, user data equal = {}, compute_state_root differs", i + 1, *users_a == ub) });
+            out = Some(Viol { sig: "state-roots-differ".into(), msg: format!("after block {} replica A and {what_b} accepted the same blocks, user data equal = {}, compute_state_root differs", i + 1, *users_a == ub) });
         }
     }
     thread_clock_reset();
@@ -563,7 +583,7 @@ fn replica_case(bs: &BlockSeq, scenario: u8) -> (u64, u64, u64, Option<Viol>) {
 }
 fn part_r(seqs: &[BlockSeq]) -> ReplicaOut {
     let mut out = ReplicaOut::default();
-    let rows: Vec<(usize, u8, (u64, u64, u64, Option<Viol>))> = seqs.par_iter().enumerate().flat_map_iter(|(i, bs)| [1u8, 2u8].into_iter().map(move |sc| (i, sc, replica_case(bs, sc)))).collect();
+    let rows: Vec<(usize, u8, (u64, u64, u64, Option<Viol>))> = seqs.par_iter().enumerate().flat_map_iter(|(i, bs)| [1u8, 2u8, 3u8].into_iter().map(move |sc| (i, sc, replica_case(bs, sc)))).collect();
     for (i, sc, (applied, acc, cmp, v)) in rows {
         out.sequences += 1;
         out.blocks_applied += applied;
@@ -571,7 +591,7 @@ fn part_r(seqs: &[BlockSeq]) -> ReplicaOut {
         out.comparisons += cmp;
         if let Some(v) = v {
             out.violating += 1;
-            let sig = format!("c16:replica:{}:{}", if sc == 1 { "same-genesis" } else { "genesis-created-later" }, v.sig);
+            let sig = format!("c16:replica:{}:{}", ["", "applied-an-hour-later", "created-an-hour-later", "other-node-id"][sc as usize], v.sig);
             if out.violations.iter().filter(|x| x.0 == sig).count() < 3 {
                 out.violations.push((sig, format!("blocks committed by {:?} (cfg {:?}), scenario {sc}: {}", seqs[i].hist, seqs[i].cfg, v.msg), json!({"part":"R","scenario":sc,"cfg":seqs[i].cfg,"ops":seqs[i].hist})));
             }
@@ -592,6 +612,7 @@ struct TamperOut {
     field_mutations: u64,
     structural: u64,
     violations: Vec<(String, String, serde_json::Value)>,
+    undetected_list: Vec<String>,
     machinery: Option<String>,
 }
 fn block_key(h: u64) -> String {
@@ -751,11 +772,14 @@ fn field_mutations(b: &Block, others: &[Block], v2: &Identity, forger: &Identity
     out.push(("signatures: bogus co-signature added".into(), x));
     out
 }
-fn tamper_signature(h: u64, fields: &[&str]) -> String {
+fn tamper_signature(orig: &Block, mutated: Option<&Block>, fields: &[&str]) -> String {
     if fields == ["signatures"] {
         "c16:tamper:cosignature-list-unverified".into()
-    } else if h == 0 {
+    } else if orig.header.height == 0 {
         "c16:tamper:genesis-body-unverified".into()
+    } else if fields == ["transactions"] && mutated.is_some_and(|m| m.compute_tx_root() == orig.compute_tx_root()) {
+        // a different transaction list with the same Merkle root
+        "c16:tamper:tx-root-collision-duplicated-last-leaf".into()
     } else {
         format!("c16:tamper:undetected:{}", fields.join("+"))
     }
@@ -801,6 +825,7 @@ fn part_x(bitflips: bool) -> TamperOut {
     };
     let report = |out: &mut TamperOut, sig: String, what: String, replay: serde_json::Value| {
         out.undetected += 1;
+        out.undetected_list.push(format!("{sig}: {what}"));
         if out.violations.iter().filter(|x| x.0 == sig).count() < 3 {
             out.violations.push((sig, format!("verify() still succeeds after: {what}"), replay));
         }
@@ -820,7 +845,7 @@ fn part_x(bitflips: bool) -> TamperOut {
             let r = chain.verify();
             if r.is_ok() {
                 let fields = differing_fields(&orig[h as usize], &mutated);
-                report(&mut out, tamper_signature(h, &fields), format!("block {h}: {name} (fields changed: {fields:?})"), json!({"part":"X","block":h,"mutation":name}));
+                report(&mut out, tamper_signature(&orig[h as usize], Some(&mutated), &fields), format!("block {h}: {name} (fields changed: {fields:?})"), json!({"part":"X","block":h,"mutation":name}));
             } else {
                 out.detected += 1;
             }
@@ -899,7 +924,7 @@ fn part_x(bitflips: bool) -> TamperOut {
                 write_bytes(&store, h, m);
                 if chain.verify().is_ok() {
                     let fields = dec.as_ref().map(|d| differing_fields(&orig[h as usize], d)).unwrap_or_default();
-                    report(&mut out, tamper_signature(h, &fields), format!("block {h}: bit {bit} of the stored bytes flipped (fields changed: {fields:?})"), json!({"part":"X","block":h,"bit":bit}));
+                    report(&mut out, tamper_signature(&orig[h as usize], dec.as_ref(), &fields), format!("block {h}: bit {bit} of the stored bytes flipped (fields changed: {fields:?})"), json!({"part":"X","block":h,"bit":bit}));
                 } else {
                     out.detected += 1;
                 }
@@ -1096,10 +1121,19 @@ fn explore_program(p: &Program, bound: usize, part: (usize, usize), st: &mut WSt
         } else {
             sig
         };
-        let kinds = if p.ws.iter().any(|w| matches!(w.2, TAct::Rollback)) { "commit||rollback" } else { "commit||commit" };
-        let sig = format!("{sig}:{kinds}");
+        let with_rollback = p.ws.iter().any(|w| matches!(w.2, TAct::Rollback));
+        let sig = match sig.strip_prefix("c16:conc:") {
+            Some(sym) if sym != "deadlock" && sym != "panic" && sym != "thread-failure" => {
+                if with_rollback {
+                    format!("c16:conc:rollback-restores-begin-snapshot:{sym}")
+                } else {
+                    format!("c16:conc:unserialized-commit:{sym}")
+                }
+            }
+            _ => format!("{sig}:{}", if with_rollback { "commit||rollback" } else { "commit||commit" }),
+        };
         if st.violations.iter().filter(|x| x.signature == sig).count() < 3 {
-            st.violations.push(nvc::report::ViolationRec { signature: sig, message: format!("{}: {msg} (schedule {:?}, {} preemptions)", p.name, v.threads, v.preemptions), replay: json!({"part":"T","program": p, "bound": bound, "choices": v.choices, "thread_schedule": v.threads}) });
+            st.violations.push(nvc::report::ViolationRec { signature: sig, message: format!("{}: {msg} (thread schedule {}, {} preemptions)", p.name, rle(&v.threads), v.preemptions), replay: json!({"part":"T","program": p, "bound": bound, "choices": v.choices, "thread_schedule": v.threads}) });
         }
     }
     if st.sample.is_none() && part.0 == 0 {
@@ -1107,18 +1141,38 @@ fn explore_program(p: &Program, bound: usize, part: (usize, usize), st: &mut WSt
     }
 }
 
+/// run-length rendering of a thread schedule: "0x80 1x79 0x3"
+fn rle(v: &[usize]) -> String {
+    let mut out: Vec<String> = vec![];
+    let mut i = 0;
+    while i < v.len() {
+        let mut j = i;
+        while j < v.len() && v[j] == v[i] {
+            j += 1;
+        }
+        out.push(format!("{}x{}", v[i], j - i));
+        i = j;
+    }
+    out.join(" ")
+}
+fn bound_for(p: &Program, thorough: bool) -> usize {
+    if thorough && p.ws.len() == 2 {
+        2
+    } else {
+        1
+    }
+}
 const PARTS: usize = 4;
 fn worker(i: usize, n: usize, thorough: bool) {
     vsched::quiet_panics();
     vsched::set_thread_init(|t| env::set_thread_seed(t as u64 + 1));
-    let bound = 2;
     let mut st = WStats::default();
     let progs = programs(thorough);
     let mut task = 0usize;
     for p in &progs {
         for part in 0..PARTS {
             if task % n == i {
-                explore_program(p, bound, (part, PARTS), &mut st);
+                explore_program(p, bound_for(p, thorough), (part, PARTS), &mut st);
             }
             task += 1;
         }
@@ -1164,8 +1218,8 @@ fn main() {
     let mut rep = Report::new("C16", "model_checking");
     let thorough = rep.thorough();
     let depth = if thorough { 6 } else { 5 };
-    let bound = 2;
-    rep.rule(&format!("S: for each of 6 configurations (auto-merge on/off x workspaces without / with identical / with orthogonal delta embeddings) BFS over every sequence of <= {depth} operations from {{begin(slot), put(slot,key), delete(slot,key), commit(slot), rollback(slot), append_block(signed|unsigned)}} over 2 workspace slots and 2 keys, replayed on a fresh real TensorChain, dedup on (blocks, store, workspace states/ops); after every step: verify() Ok, every height present/linked/rooted, tip_hash/get_block/history agree with the blocks added, new block == the writes of exactly the workspaces that became Committed, store user keys == reference. X: genesis + 3 committed blocks, own and a second validator key registered; every header-field and transaction-list mutation of every stored block (tx_root kept and recomputed), co-signature injection, every removal, every swap, 4 forgeries per block, every single-bit flip of every stored block's bytes; verify() must fail unless the decoded block is equal. R: every distinct commit-built block sequence of S applied by two TensorStateMachines (proposer's node id and key), replica B one hour later (scenario 1: same genesis, scenario 2: B created later); same accept/reject, same compute_state_root after each block. T: per program 2{} real threads calling commit (one program: rollback) on prepared workspaces, every schedule with <= {bound} preemptions; quiescent chain verifies and is linked, each Committed workspace exactly once in one block, no other, store == blocks applied in order. non-trivial = distinct S states + schedules with >= 1 preemption + tamper cases + replica comparisons", if thorough { "-3" } else { "" }));
+    let bound = if thorough { "2 (2-thread programs) / 1 (3-thread programs)" } else { "1" };
+    rep.rule(&format!("S: for each of 6 configurations (auto-merge on/off x workspaces without / with identical / with orthogonal delta embeddings) BFS over every sequence of <= {depth} operations from {{begin(slot), put(slot,key), delete(slot,key), commit(slot), rollback(slot), append_block(signed|unsigned)}} over 2 workspace slots and 2 keys, replayed on a fresh real TensorChain, dedup on (blocks, store, workspace states/ops); after every step: verify() Ok, every height present/linked/rooted, tip_hash/get_block/history agree with the blocks added, new block == the writes of exactly the workspaces that became Committed, store user keys == reference. X: genesis + 3 committed blocks, own and a second validator key registered; every header-field and transaction-list mutation of every stored block (tx_root kept and recomputed), co-signature injection, every removal, every swap, 4 forgeries per block, every single-bit flip of every stored block's bytes; verify() must fail unless the decoded block is equal. R: every distinct commit-built block sequence of S applied by two TensorStateMachines (proposer's node id and key), replica A at the proposer's clock T; replica B: (1) same genesis, applies one hour later, (2) created one hour later, (3) another node id at the same clock; same accept/reject, same compute_state_root after each block. T: per program 2{} real threads calling commit (one program: rollback) on prepared workspaces, every schedule with <= {bound} preemptions; quiescent chain verifies and is linked, each Committed workspace exactly once in one block, no other, store == blocks applied in order. non-trivial = distinct S states + schedules with >= 1 preemption + tamper cases + replica comparisons", if thorough { "-3" } else { "" }));
     rep.assume("interleavings at lock-acquisition granularity: TensorChain::commit/rollback, TransactionManager, TransactionWorkspace, Chain, GraphEngine, TensorStore, ValidatorRegistry, GlobalCodebook use parking_lot / dashmap locks only (no std::sync, tokio::sync or Condvar on these paths); Chain::height is an atomic read inside lock-delimited segments");
     rep.assume("tampering = rewriting the `_block` bytes (or the whole entry) of `chain:block:<h>` in the store of a live TensorChain; the in-memory height/tip of that instance are trusted; reopening a truncated store is not examined");
 
@@ -1192,7 +1246,7 @@ fn main() {
     for (sig, msg, r) in &x.violations {
         rep.violation(sig.clone(), msg.clone(), r.clone());
     }
-    rep.part("X", json!({"cases": x.cases, "field_mutations": x.field_mutations, "removals_swaps_forgeries": x.structural, "bit_flips": x.bitflips, "bit_flips_undecodable": x.bitflips_decode_fail, "bit_flips_decoding_to_the_same_block": x.benign_equal, "detected": x.detected, "undetected": x.undetected, "wall_s": env::real_now_s() - t}));
+    rep.part("X", json!({"cases": x.cases, "field_mutations": x.field_mutations, "removals_swaps_forgeries": x.structural, "bit_flips": x.bitflips, "bit_flips_undecodable": x.bitflips_decode_fail, "bit_flips_decoding_to_the_same_block": x.benign_equal, "detected": x.detected, "undetected": x.undetected, "undetected_cases": x.undetected_list, "wall_s": env::real_now_s() - t}));
     rep.sample(json!({"part":"X","chain":"genesis + [put a] + [put b, delete a | delta e3] + [put a, put c, delete b]","example_case":"block 2: tx 1 payload/kind altered, tx_root recomputed"}));
 
     // Part R
